@@ -113,9 +113,12 @@ def lib_decrypt(blob, key, kind, wrapper=True):
                                                         "document": "INFO_DOCUM"}[kind]))
 
 
-def _roundtrip(out, n, seed, key, kind, wrapper, content=None):
+def _roundtrip(out, n, seed, key, kind, wrapper, content=None, buffer=None):
     pt = plaintext_of(n, seed)
     ctx = {"n": n, "kind": kind, "seed": seed}
+    if buffer:
+        ctx["buffer"] = buffer
+        out.label("content_given_as=" + buffer)
     if content is not None:
         # the content is itself an encrypted file: of the same content under the same key and kind (a received file sent on as it
         # is), under another key, or of another kind - content is content, it is encrypted like any other bytes
@@ -124,8 +127,17 @@ def _roundtrip(out, n, seed, key, kind, wrapper, content=None):
         pt = ref_encrypt(pt, inner_key, inner_kind)
         ctx["content"] = "an encrypted file (%s key, %s kind)" % (content["key"], content["kind"])
         out.label("content_is_an_encrypted_file", "content_is_an_encrypted_file:%s_key_%s_kind" % (content["key"], content["kind"]))
+    # the file content may be handed over in a buffer the application keeps (a bytearray it read the file into, a view of it): the
+    # same buffer encrypted a second time - another recipient, a retried upload - is the same content again
+    given = pt if not buffer else bytearray(pt) if buffer == "bytearray" else memoryview(bytearray(pt))
     try:
-        blob = lib_encrypt(pt, key, kind, wrapper)
+        blob = lib_encrypt(given, key, kind, wrapper)
+        if buffer:
+            again = lib_encrypt(given, key, kind, wrapper)
+            if bytes(again) != bytes(blob):
+                out.fail("roundtrip", "roundtrip:same_buffer_encrypted_again_gives_other_ciphertext",
+                         dict(ctx, first_len=len(blob), second_len=len(again)))
+                return None
     except Exception as e:
         out.fail("roundtrip", "encrypt_raises:%s" % type(e).__name__, dict(ctx, error=repr(e)))
         return None
@@ -346,7 +358,7 @@ def run_case(case):
     if sub == "rt":
         out.label("rt", "kind=" + kind, "aligned" if n % 16 == 0 else "unaligned",
                   "n=0" if n == 0 else "n<=64" if n <= 64 else "n<=4096" if n <= 4096 else "n>4096")
-        _roundtrip(out, n, seed, key, kind, bool(case.get("wrapper", 1)), case.get("content"))
+        _roundtrip(out, n, seed, key, kind, bool(case.get("wrapper", 1)), case.get("content"), case.get("buffer"))
         return out
     pt = plaintext_of(n, seed)
     blob = ref_encrypt(pt, key, kind)   # a ciphertext a real peer would send
@@ -440,6 +452,9 @@ def _enum_rt():
             for keyseed in (0, 1):
                 for wrapper in (0, 1):
                     yield {"sub": "rt", "n": n, "kind": kind, "keyseed": keyseed, "seed": 3 if n % 3 else 1, "wrapper": wrapper}
+    for n in (0, 1, 15, 16, 17, 32, 4096):
+        for buffer in ("bytearray", "memoryview"):
+            yield {"sub": "rt", "n": n, "kind": n % 4, "keyseed": 1, "seed": 3, "wrapper": n % 2, "buffer": buffer}
 
 
 def _enum_reuse():
@@ -489,8 +504,10 @@ def plan(tier):
     keys = st.binary(min_size=32, max_size=32).map(lambda b: b.hex())
     content = st.one_of(st.none(), st.none(), st.none(), st.fixed_dictionaries({"key": st.sampled_from(["same", "same", "other"]),
                                                                                 "kind": st.sampled_from(["same", "same", "other"])}))
-    rt = st.builds(lambda n, k, key, s, w, c: dict({"sub": "rt", "n": n, "kind": k, "key": key, "seed": s, "wrapper": w}, **({"content": c} if c else {})),
-                   n_st, st.integers(0, 3), keys, st.integers(0, 50), st.integers(0, 1), content)
+    rt = st.builds(lambda n, k, key, s, w, c, b: dict({"sub": "rt", "n": n, "kind": k, "key": key, "seed": s, "wrapper": w},
+                                                      **dict({"content": c} if c else {}, **({"buffer": b} if b else {}))),
+                   n_st, st.integers(0, 3), keys, st.integers(0, 50), st.integers(0, 1), content,
+                   st.sampled_from([None, None, None, "bytearray", "memoryview"]))
     small = st.integers(0, 200)
     tam = st.one_of(
         st.builds(lambda n, k, key, p, m: {"sub": "tamper", "n": n, "kind": k, "key": key, "pos": p, "mask": m},
@@ -540,3 +557,4 @@ if __name__ == "__main__":
     os._exit(0)
 
 RULE += (' Also: the same tamper / round-trip cases in a child interpreter started with -O; content that is itself an encrypted file (same / other key and kind); one cipher object reused after rejected calls (a call that does not return within 10 s counts as stuck).')
+RULE += (" The content is handed over as bytes, as a bytearray or as a memoryview; a buffer is encrypted twice and must give the same ciphertext.")
